@@ -1,11 +1,13 @@
 ENGINES = [
-    {"name": "E1-crosshair", "path": "vlib/chx.py", "serves_properties": ["C01", "C13", "C18", "C20"],
+    {"name": "E1-crosshair", "path": "vlib/chx.py", "serves_properties": ["C01", "C13", "C17", "C18", "C20"],
      "kind_free_text": "CrossHair (z3) symbolic execution of harness conditions that call toasty's real functions; inductive cuts by stubbing recursive globals / the reducer; counterexamples replayed under plain CPython"},
 ]
 ENGINES.append({"name": "E2-symx-symnp", "path": "vlib/e2.py", "serves_properties": ["C02", "C06", "C08", "C09", "C11", "C12", "C14", "C15", "C16"],
      "kind_free_text": "own z3-backed proxy-object symbolic execution (vlib/symx.py) with a lazy symbolic numpy (vlib/symnp.py) patched into toasty's modules; claims proved per path; counterexamples and vacuity twins replayed with real numpy on the solver model's inputs"})
 ENGINES.append({"name": "E3-bmc", "path": "vlib/bmc.py", "serves_properties": ["C01", "C03", "C10", "C19"],
      "kind_free_text": "z3 QF_BV bounded model checking of the process protocols: producer scripts, worker reaction tables and the dispatcher's release table are extracted from the real functions on every run (vlib/mpmodel.py), composed with a trusted model of multiprocessing.Queue/Event/Process; the schedule is a solver variable with a complete step bound; counterexample schedules are replayed on the real entry points and workers under a deterministic thread scheduler"})
+ENGINES.append({"name": "E4-decy-euf", "path": "vlib/decy.py", "serves_properties": ["C04", "C05"],
+     "kind_free_text": "fail-closed translation of toasty/_libtoasty.pyx to Python on every run (validated differentially against the compiled extension), executed on symbolic values: trig -> polynomial abstraction (z3 QF_NRA) for _mid, EUF with an uninterpreted commutative midpoint for the subdivision recursion"})
 NOTES = ("Solver-based checking of the real code. Exit 0 = all explored obligations held; inconclusive obligations are printed as INCONCLUSIVE and listed in evidence, never counted as held. "
          "Exit 2 = harness error. known_findings.json lists genuine defects (open / fixed).")
 CHECKS["C13"] = dict(
@@ -113,4 +115,23 @@ CHECKS["C10"] = dict(
     technique="z3 QF_BV bounded model checking of N updaters following the step script extracted from the real update_image (lock acquire/read/modify/write-begin/write-end/release, lock path identity) + CrossHair on the lock path function",
     text="For ALL interleavings of 2 (thorough: 3) concurrent updaters of one tile, z3 shows the final tile holds every contribution, no updater reads between another's write-begin and write-end, and all finish; the lock-free variant of the same model is shown to lose an update (non-vacuity). CrossHair confirms the lock path depends on the position only (any format argument, both naming schemes) and differs between tiles.",
     note="SoftFileLock trusted as an atomic create-exclusive lock; writes modelled as two steps; replay runs the real update_image on real npy files under the solver's interleaving.",
+)
+
+CHECKS["C04"] = dict(
+    engine="E4-decy-euf", ref="DESIGN.md §4.9",
+    technique="z3: QF_NRA validity of the midpoint identity from the decythonised _mid; EUF (uninterpreted commutative midpoint) over the real _div4 / constructors for subdivision, neighbour induction step and route independence; level-1 table checked against the documented layout",
+    text="Unbounded: mid(a,b) is the unit vector of A+B for all non-degenerate angle pairs (polynomial identity); _div4 children are the cells of the 3x3 midpoint grid with positions (2x+i,2y+j) and inherited orientation for symbolic corners; facing children of two edge-sharing tiles share the half edges for all 96 side/direction/orientation combinations. Bounded: the four construction routes give identical corner terms to depth 2 (3 thorough) and identical doubles to depth 4 (5); level-1 table = documented layout and seams, both coordinate systems.",
+    note="angles only through sin/cos; equality of points not of 2*pi-shifted longitudes; tile areas (toast_tile_area) not decided; compiled extension validated against the .pyx (cannot be rebuilt here).",
+)
+CHECKS["C05"] = dict(
+    engine="E4-decy-euf", ref="DESIGN.md §4.9",
+    technique="z3 EUF: the decythonised recursive _subsample and the real toast._div4 executed on opaque points with an uninterpreted commutative midpoint; equality of all n x n centre terms",
+    text="For symbolic tile corners and both diagonal orientations z3 shows the coordinate written at [row i, col j] of the n x n grid is the centre term of the descendant (2^k x + j, 2^k y + i) produced by the real _div4, for n = 1..16 (quick) and the real n = 256 (65 536 centres, thorough); toast_tile_get_coords passes corners/orientation in the right order.",
+    note="midpoint uninterpreted (its meaning is C04); points, not longitudes modulo 2*pi; the latitude-range sentence is trigonometric and not decided; compiled extension validated differentially.",
+)
+CHECKS["C17"] = dict(
+    engine="E1-crosshair", ref="DESIGN.md §4.12",
+    technique="CrossHair/z3 on the real PyramidIO path functions with symbolic decimal strings + z3 string theory for injectivity of the recorded URL template + execution of every FitsTiler.tile() directory history with the real WTML writer/parser",
+    text="Expanding the template recorded by the real PyramidIO with symbolic (level, x, y) digit strings gives the path _tile_path writes (both schemes); z3 (strings) shows the expansion is injective on decimal strings <= 6 digits; Builder records '.'+format and scheme+format; toast_base records the depth; all 6 histories (fresh / reused / override x TAN / TOAST) return a builder equal to the index_rel.wtml on disk.",
+    note="WWT client's template expansion modelled ({1},{2},{3}); tiling work inside FitsTiler.tile() stubbed; tile_levels = deepest populated layer via C08/C09/C06.",
 )
